@@ -275,6 +275,120 @@ func vpH_C02_term_Actor()    { vpC02Term(vpTypeIndex("Actor")) }
 func vpH_C02_term_Activity() { vpC02Term(vpTypeIndex("Activity")) }
 func vpH_C02_term_others()   { vpC02Term(3 + vpChoice(len(vpTypeNames)-3)) }
 
+// LISTS: entries that serialise to nothing (nil, typed nil, the empty IRI, an object with nothing set)
+// at every position of a list-valued property, between entries that are written: the output stays
+// valid JSON and holds exactly the written entries, in order.
+var vpC02ListHolders = []string{"Object.To", "Object.Tag", "Activity.CC", "Collection.Items", "OrderedCollection.OrderedItems", "Actor.Streams", "Question.AnyOf", "ItemCollection"}
+
+func vpC02Entry(k int, id string) Item {
+	switch k {
+	case 0:
+		return IRI(id)
+	case 1:
+		return &Object{ID: IRI(id), Type: NoteType}
+	case 2:
+		return nil
+	case 3:
+		return (*Object)(nil)
+	case 4:
+		return IRI("")
+	case 5:
+		return &Object{}
+	case 6:
+		return &Link{Type: MentionType, Href: IRI(id)}
+	}
+	return (*Activity)(nil)
+}
+
+func vpC02Written(k int) bool { return k == 0 || k == 1 || k == 6 }
+
+func vpC02Lists(n int) {
+	hi := vpChoice(len(vpC02ListHolders))
+	holder := vpC02ListHolders[hi]
+	var list ItemCollection
+	var want []string
+	for i := 0; i < n; i++ {
+		k := vpChoice(8)
+		id := "https://h.ex/" + string([]byte{'a' + byte(i), vpAlnum()})
+		list = append(list, vpC02Entry(k, id))
+		if vpC02Written(k) {
+			want = append(want, id)
+		}
+	}
+	var x Item
+	term := ""
+	switch hi {
+	case 0:
+		x, term = &Object{ID: "https://h.ex/i", Type: NoteType, To: list}, "to"
+	case 1:
+		x, term = &Object{ID: "https://h.ex/i", Type: NoteType, Tag: list}, "tag"
+	case 2:
+		x, term = &Activity{ID: "https://h.ex/i", Type: LikeType, CC: list}, "cc"
+	case 3:
+		x, term = &Collection{ID: "https://h.ex/i", Type: CollectionType, Items: list}, "items"
+	case 4:
+		x, term = &OrderedCollection{ID: "https://h.ex/i", Type: OrderedCollectionType, OrderedItems: list}, "orderedItems"
+	case 5:
+		x, term = &Actor{ID: "https://h.ex/i", Type: PersonType, Streams: list}, "streams"
+	case 6:
+		x, term = &Question{ID: "https://h.ex/i", Type: QuestionType, AnyOf: list}, "anyOf"
+	default:
+		x = list
+	}
+	b, err := vpMarshalItem(x)
+	vpAssert("lists/no-error/"+holder, err == nil)
+	if len(b) == 0 {
+		vpAssert("lists/empty-only-for-nothing/"+holder, hi == 7 && len(want) == 0)
+		vpReach("end")
+		return
+	}
+	doc, _ := vpParseJSON(b)
+	vpAssert("lists/valid-json/"+holder, doc != nil)
+	if doc == nil {
+		vpReach("end")
+		return
+	}
+	m := doc
+	if hi != 7 {
+		vpAssert("lists/is-object/"+holder, doc.kind == 'o')
+		m = doc.get(term)
+	}
+	if len(want) == 0 {
+		vpAssert("lists/nothing-or-empty-array/"+holder, m == nil || (m.kind == 'a' && len(m.elems) == 0))
+		vpReach("end")
+		return
+	}
+	vpAssert("lists/member-present/"+holder, m != nil)
+	if m == nil {
+		vpReach("end")
+		return
+	}
+	elems := []*vpJ{m}
+	if m.kind == 'a' {
+		elems = m.elems
+	}
+	vpAssert("lists/entry-count/"+holder, len(elems) == len(want))
+	for i := 0; i < len(elems) && i < len(want); i++ {
+		e := elems[i]
+		var got []byte
+		switch e.kind {
+		case 's':
+			got = e.str
+		case 'o':
+			if v := e.get("id"); v != nil && v.kind == 's' {
+				got = v.str
+			} else if v := e.get("href"); v != nil && v.kind == 's' {
+				got = v.str
+			}
+		}
+		vpAssert("lists/entry-in-order/"+holder, string(got) == want[i])
+	}
+	vpReach("end")
+}
+
+func vpH_C02_lists2() { vpC02Lists(2) }
+func vpT_C02_lists3() { vpC02Lists(3) }
+
 func vpW_C02_twin() {
 	x := &Object{ID: IRI(vpBytes(1)), Type: NoteType}
 	b, _ := x.MarshalJSON()
